@@ -551,12 +551,35 @@ func builtinIntrinsics() map[string]intrinsic {
 		if len(es) == 0 {
 			return crc
 		}
-		p.eng.noteStub(p.harness, "hash/crc32 on symbolic data: uninterpreted function of (table, initial crc, byte sequence)")
+		p.eng.noteStub(p.harness, "hash/crc32 on symbolic data: uninterpreted function of (table, initial crc, byte sequence) + CRC contract (same data, different initial value => different result; same initial value, exactly one byte changed => different result)")
 		args := []*Term{crc}
 		for _, e := range es {
 			args = append(args, e.(*Term))
 		}
-		return p.st.UF(fmt.Sprintf("crc32_%s_%d", tabID, len(es)), 32, args...)
+		name := fmt.Sprintf("crc32_%s_%d", tabID, len(es))
+		res := p.st.UF(name, 32, args...)
+		// CRC contract against earlier applications of the same table and length (true of every CRC-32: the state update is
+		// a bijection for fixed data, and any burst error of <= 32 bits is detected)
+		st := p.st
+		for _, old := range p.crcApps {
+			if old.name != name || same(old.res, res) {
+				continue
+			}
+			allEq := st.True
+			ndiff := st.BV(8, 0)
+			for i := range es {
+				eq := st.Eq(old.args[1+i], args[1+i])
+				allEq = st.And(allEq, eq)
+				ndiff = st.Add(ndiff, st.Ite(eq, st.BV(8, 0), st.BV(8, 1)))
+			}
+			initEq := st.Eq(old.args[0], args[0])
+			p.assume(st.Implies(st.And(st.Not(initEq), allEq), st.Not(st.Eq(old.res, res))))
+			if len(es) < 200 {
+				p.assume(st.Implies(st.And(initEq, st.Eq(ndiff, st.BV(8, 1))), st.Not(st.Eq(old.res, res))))
+			}
+		}
+		p.crcApps = append(p.crcApps, crcApp{name, args, res})
+		return res
 	}
 	m["hash/crc32.ChecksumIEEE"] = func(p *Path, fr *frame, pos token.Pos, args []Value) Value {
 		return crcUpdate(p, "ieee", crc32.IEEE, p.st.BV(32, 0), args[0])
